@@ -7,7 +7,7 @@ from propbase import StreamProperty
 from common import np, dnp
 
 RULE = ("remove_background for polynomial degrees 0-4 with and without region lists on random polynomial and non-polynomial "
-        "real/complex traces; normalize overall and per trace; interp on own coordinates and on refined grids inside the "
+        "real/complex traces; normalize overall and per trace; interp on own coordinates and on refined grids (ascending, descending, unordered) inside the "
         "source range; left_shift for every shift count 0..n-1; ndalign on data with one peak per trace circularly shifted "
         "by every integer shift; 1-3-D objects with the processed dimension in every position; correspondence with the "
         "Lean model (exact for normalize/interp/left_shift/ndalign, per-trace table for the least-squares fit) and the "
@@ -58,6 +58,10 @@ def streams(tier, seed):
             out.append([r, op_simple("interp", r, dim=dim, new_coord=[str(x) for x in c])])
             fine = sorted(set(c + [(c[i] + c[i + 1]) / 2 for i in range(n - 1)] + [c[0] + Fraction(1, 8)]))
             out.append([r, op_simple("interp", r, dim=dim, new_coord=[str(x) for x in fine])])
+            # target grids that are NOT ascending (a high-to-low axis, an unordered list): each value belongs to its own label
+            out.append([r, op_simple("interp", r, dim=dim, new_coord=[str(x) for x in reversed(fine)])])
+            shuf = list(fine); rng.shuffle(shuf)
+            out.append([r, op_simple("interp", r, dim=dim, new_coord=[str(x) for x in shuf])])
             # the same on a NON-uniform source axis (quadratically spaced): identity on its own coordinates, exact midpoints
             rq = dict(r, coords=[list(cc_) for cc_ in r["coords"]])
             cq = [Fraction(i * i + 2 * i, 4) + Fraction(1, 2) for i in range(n)]
